@@ -400,3 +400,254 @@ _det('detect_rex_constraint', dict(colname=T.str, violations=T.custom(lambda it,
      [('records-holding-an-unmatched-string-are-flagged',
        "written_exactly(flag_name(colname, 'rex'), "
        "every_record_false() if coarse() != 'string' else flags(colname, not_in(colname, violations)))")])
+
+
+# ---------------------------------------------------------------------------
+# write_detected_records (C06), the in-memory part (no output file): per-record failure counts, the two record
+# counts, which records and which columns the detection frame holds, and the input frame's frame condition.
+#
+# Row-level model of the pandas frames (A-pandas): a frame is an ordered list of (name, row -> value) columns over
+# N rows plus a row predicate (which of the N rows it holds).  Flag values are three-valued (1 true, 0 false,
+# -1 null).  sum(axis=1) counts the true flags of a row, isnull().sum(axis=1) the null ones; arithmetic and
+# comparisons on series are element-wise; boolean indexing restricts the rows; drop / insert / item assignment
+# edit the column list.  Counting the rows of a mask gives an uninterpreted number tied to that mask.
+# ---------------------------------------------------------------------------
+
+_ROW = z3.Int('row!r')
+
+
+def _rowfn_series(fn, label='series'):
+    s = SObj('RowSeries', {'__open__': False, 'fn': fn}, label=label)
+    s.methods['astype'] = Builtin(lambda it, self, t: self, 'astype')
+
+    def binop(it, op, a, b):
+        fa = a.attrs['fn'] if isinstance(a, SObj) else (lambda r, a=a: z3.IntVal(int(a)))
+        fb = b.attrs['fn'] if isinstance(b, SObj) else (lambda r, b=b: z3.IntVal(int(b)))
+        if op == '-':
+            return _rowfn_series(lambda r: fa(r) - fb(r))
+        if op == '+':
+            return _rowfn_series(lambda r: fa(r) + fb(r))
+        raise Unsupported('%s on a row series' % op)
+    s.attrs['__binop__'] = binop
+
+    def cmp(it, op, a, b):
+        if a is not s or isinstance(b, SObj):
+            raise Unsupported('comparison of row series')
+        bz = b.z if isinstance(b, SInt) else z3.IntVal(int(b))
+        rel = {'>': lambda x: x > bz, '>=': lambda x: x >= bz, '<': lambda x: x < bz, '<=': lambda x: x <= bz,
+               '==': lambda x: x == bz, '!=': lambda x: x != bz}[op]
+        return _rowmask(lambda r: rel(fn(r)))
+    s.attrs['__cmp__'] = cmp
+    return s
+
+
+def _rowmask(pred):
+    m = SObj('RowMask', {'__open__': False, 'pred': pred}, label='mask')
+
+    def astype(it, self, t):
+        ints = SObj('RowMaskInts', {'__open__': False, 'pred': pred})
+
+        def total(it2, self2):
+            n = it2.fresh(T.nat, 'rows_of_mask')
+            it2.ghost.setdefault('counts', []).append((n, pred))
+            return n
+        ints.methods['sum'] = Builtin(total, 'sum')
+        return ints
+    m.methods['astype'] = Builtin(astype, 'astype')
+    return m
+
+
+def _frame(it, cols, rows=None, N=None, label='frame'):
+    f = SObj('RowFrame', {'__open__': False, 'cols': list(cols), 'rows': rows or (lambda r: z3.BoolVal(True)), 'N': N},
+             label=label)
+    f.attrs['__iter__'] = [n for n, _ in f.attrs['cols']]      # kept in step with the columns (see _sync)
+    f.attrs['__len__'] = N
+
+    def total(it2, self, axis=None):
+        flags = [fn for n, fn in self.attrs['cols']]
+        return _rowfn_series(lambda r: z3.Sum([z3.If(fn(r) == 1, 1, 0) for fn in flags]) if flags else z3.IntVal(0))
+    f.methods['sum'] = Builtin(total, 'DataFrame.sum')
+
+    def isnull(it2, self):
+        flags = [fn for n, fn in self.attrs['cols']]
+        g = SObj('RowFrameNulls', {'__open__': False})
+        g.methods['sum'] = Builtin(lambda it3, s3, axis=None: _rowfn_series(
+            lambda r: z3.Sum([z3.If(fn(r) == -1, 1, 0) for fn in flags]) if flags else z3.IntVal(0)), 'sum')
+        return g
+    f.methods['isnull'] = Builtin(isnull, 'DataFrame.isnull')
+
+    def setitem(it2, obj, k, v):
+        if not (isinstance(v, SObj) and 'fn' in v.attrs):
+            raise Unsupported('assigning something other than a series to a frame column')
+        obj.attrs['cols'] = [(n, fn) for n, fn in obj.attrs['cols'] if n != k] + [(k, v.attrs['fn'])]
+        _sync(obj)
+        if obj.attrs.get('is_input'):
+            it2.ghost.setdefault('input_assignments', []).append(k)
+    f.attrs['__setitem__'] = setitem
+
+    def getitem(it2, self, k):
+        if isinstance(k, SObj) and k.cls == 'RowMask':
+            old = self.attrs['rows']
+            return _frame(it2, self.attrs['cols'], lambda r: z3.And(old(r), k.attrs['pred'](r)), None, label)
+        for n, fn in self.attrs['cols']:
+            if n == k or (n is k):
+                return _rowfn_series(fn, str(k))
+        raise PyExcKey(k)
+    f.methods['__getitem__'] = Builtin(getitem, 'DataFrame.__getitem__')
+
+    def drop(it2, self, names, axis=None):
+        names = list(names)
+        return _frame(it2, [(n, fn) for n, fn in self.attrs['cols'] if n not in names], self.attrs['rows'],
+                      self.attrs['N'], label)
+    f.methods['drop'] = Builtin(drop, 'DataFrame.drop')
+
+    def insert(it2, self, loc, name, value):
+        if loc != 0:
+            raise Unsupported('insert at a position other than 0')
+        self.attrs['cols'] = [(name, value.attrs['fn'])] + self.attrs['cols']
+        _sync(self)
+    f.methods['insert'] = Builtin(insert, 'DataFrame.insert')
+    return f
+
+
+def _sync(f):
+    f.attrs['__iter__'][:] = [n for n, _ in f.attrs['cols']]
+
+
+def PyExcKey(k):
+    from pyvc.ops import PyExc
+    return PyExc('KeyError', repr(k))
+
+
+_FLAGCOLS = (['c_min_ok'], ['c_min_ok', 'c_max_ok'], ['c_type_ok', 'd_sign_ok', 'd_nonnull_ok'])
+_INPUTCOLS = ['c', 'd']
+
+
+def _wdr_view(it):
+    rc = extract.load_module('tdda/constraints/pd/constraints.py').classes['PandasConstraintDetector']
+    k = it.path.choose([True] * len(_FLAGCOLS))
+    names = _FLAGCOLS[k]
+    N = it.fresh(T.nat, 'rows')
+    flags = []
+    for n in names:
+        fn = z3.Function('flag.' + n, z3.IntSort(), z3.IntSort())
+        q = z3.Int('flag!q')
+        it.path.assume(z3.ForAll([q], z3.And(fn(q) >= -1, fn(q) <= 1)))
+        flags.append((n, (lambda r, fn=fn: fn(r))))
+    out = _frame(it, flags, None, N, 'out_df')
+    inp = _frame(it, [(n, (lambda r, n=n: z3.Function('input.' + n, z3.IntSort(), z3.IntSort())(r))) for n in _INPUTCOLS],
+                 None, N, 'df')
+    inp.attrs['is_input'] = True
+    it.ghost['flags'] = list(flags)
+    it.ghost['N'] = N
+    o = SObj('PandasConstraintDetector', {'df': inp, 'out_df': out, 'date_cols': []}, label='self')
+    o.repo_class = rc
+    return o
+
+
+def _wdr_entry(it, senv):
+    it.spec_env['Detection'] = Builtin(lambda it2, obj, npass, nfail: SObj('Detection', {
+        'obj': obj, 'n_passing_records': npass, 'n_failing_records': nfail, '__open__': False}), 'Detection')
+
+
+def _register_wdr():
+    def ucn(it, env):
+        n = it.fresh_str('unique_column_name')
+        it.ghost.setdefault('fresh_names', []).append((n, env['name']))
+        return n
+    c = Contract(PD + 'unique_column_name', params=dict(df=None, name=None), effects=ucn, result=T.none, assumed=True,
+                 name='unique_column_name', trusted_note='unique_column_name(df, name) is a name no column of df has')
+    REGISTRY[c.ident] = c
+
+
+_register_wdr()
+
+
+def _bz(v):
+    return v.z if isinstance(v, SBool) else z3.BoolVal(bool(v))
+
+
+def _falses(it, r):
+    return z3.Sum([z3.If(fn(r) == 0, 1, 0) for n, fn in it.ghost['flags']])
+
+
+def _forall_rows(it, body):
+    r = z3.Int('row!any')
+    return z3.ForAll([r], z3.Implies(z3.And(r >= 0, r < it.ghost['N'].z), body(r)))
+
+
+@specfn
+def failure_count_is_the_number_of_false_flags(it, result):
+    fr = result.attrs['obj']
+    col = [fn for n, fn in fr.attrs['cols'] if n == 'n_failures']
+    if len(col) != 1:
+        return False
+    return SBool(_forall_rows(it, lambda r: col[0](r) == _falses(it, r)))
+
+
+@specfn
+def record_counts_partition_the_rows(it, result):
+    nf, np_ = result.attrs['n_failing_records'], result.attrs['n_passing_records']
+    counts = it.ghost.get('counts', [])
+    mine = [(n, pred) for n, pred in counts if n is nf]
+    if len(mine) != 1:
+        return False
+    pred = mine[0][1]
+    same_rows = _forall_rows(it, lambda r: pred(r) == (_falses(it, r) >= 1))
+    nfz = nf.z if isinstance(nf, SInt) else z3.IntVal(int(nf))
+    npz = np_.z if isinstance(np_, SInt) else z3.IntVal(int(np_))
+    return SBool(z3.And(same_rows, npz + nfz == it.ghost['N'].z))
+
+
+@specfn
+def holds_exactly_the_failing_records_unless_all_are_asked_for(it, result, write_all):
+    fr = result.attrs['obj']
+    rows = fr.attrs['rows']
+    return SBool(z3.If(_bz(write_all), _forall_rows(it, lambda r: rows(r)),
+                       _forall_rows(it, lambda r: rows(r) == (_falses(it, r) >= 1))))
+
+
+@specfn
+def columns_are(it, result, per_constraint, output_fields):
+    fr = result.attrs['obj']
+    got = [n for n, _ in fr.attrs['cols']]
+    want = ([] if output_fields is None else (list(_INPUTCOLS) if len(output_fields) == 0 else list(output_fields)))
+    flags = [n for n, _ in it.ghost['flags']]
+    return SBool(z3.If(_bz(per_constraint), z3.BoolVal(got == want + flags + ['n_failures']),
+                       z3.BoolVal(got == want + ['n_failures'])))
+
+
+@specfn
+def input_frame_touched_only_in_place(it, in_place, result):
+    touched = it.ghost.get('input_assignments', [])
+    # in place: one new column per column of the detection frame (before the output fields are added), each under a
+    # fresh name; otherwise nothing is assigned to the input frame
+    fresh = [n for n, _ in it.ghost.get('fresh_names', [])]
+    inplace_ok = len(touched) == len(fresh) and len(touched) >= 1 and all(a is b for a, b in zip(touched, fresh))
+    return SBool(z3.If(_bz(in_place), z3.BoolVal(inplace_ok), z3.BoolVal(not touched)))
+
+
+_WENV = dict(ENV, failure_count_is_the_number_of_false_flags=failure_count_is_the_number_of_false_flags,
+             record_counts_partition_the_rows=record_counts_partition_the_rows,
+             holds_exactly_the_failing_records_unless_all_are_asked_for=holds_exactly_the_failing_records_unless_all_are_asked_for,
+             columns_are=columns_are, input_frame_touched_only_in_place=input_frame_touched_only_in_place)
+
+_OUTFIELDS = T.union(T.const(None), T.const([]), T.const(['d']), T.const(['d', 'c']))
+_wdr = contract(DETC + 'write_detected_records', props=['C06'],
+                params=dict(detect_outpath=T.const(None), detect_write_all=T.bool, detect_per_constraint=T.bool,
+                            detect_output_fields=_OUTFIELDS, detect_index=T.bool, detect_in_place=T.bool,
+                            rownumber_is_index=T.bool, boolean_ints=T.bool, interleave=T.const(False)),
+                self_view=_wdr_view, on_entry=_wdr_entry, spec_env=_WENV, result=T.none,
+                ensures=[('each-record-s-failure-count-is-its-number-of-false-flags',
+                          'failure_count_is_the_number_of_false_flags(result)'),
+                         ('failing-records-are-those-with-a-false-flag-and-the-two-counts-partition-the-rows',
+                          'record_counts_partition_the_rows(result)'),
+                         ('the-detection-frame-holds-exactly-the-failing-records-unless-all-are-asked-for',
+                          'holds_exactly_the_failing_records_unless_all_are_asked_for(result, detect_write_all)'),
+                         ('columns-output-fields-then-flags-if-asked-then-the-count',
+                          'columns_are(result, detect_per_constraint, detect_output_fields)'),
+                         ('the-input-frame-is-assigned-to-only-for-in-place-output',
+                          'input_frame_touched_only_in_place(detect_in_place, result)')])
+_wdr.abstraction = ('in-memory part only (no output file, no interleaving); frames are row-level stubs: 1..3 three-valued flag '
+                    'columns over any number of rows, element-wise arithmetic and comparison, row counts of masks '
+                    'uninterpreted (A-pandas)')
